@@ -32,24 +32,27 @@ type sentRec struct {
 }
 
 type fwdHarness struct {
-	t      *rapid.T
-	or     fwdOracles
-	codec  string
-	up     *rtpUpTrack
-	down   *rtpDownTrack
-	cap    *capWriter
-	pkts   []*srcPkt // source stream, index e-start
-	start  int
-	next   int // highest arrived + 1
-	arr    map[int]int
-	w      []int
-	wset   map[int]bool
-	first  map[int]capPkt     // first forwarded copy per source packet
-	byOut  map[uint16]sentRec // first transmission under each outgoing number
-	inOrd  bool               // history is strictly in order so far
-	frameW map[int]int        // frame -> number of withheld packets
-	frameN map[int]int        // frame -> number of packets
-	log    []string
+	t          *rapid.T
+	or         fwdOracles
+	codec      string
+	up         *rtpUpTrack
+	down       *rtpDownTrack
+	cap        *capWriter
+	pkts       []*srcPkt // source stream, index e-start
+	start      int
+	next       int // highest arrived + 1
+	arr        map[int]int
+	w          []int
+	wset       map[int]bool
+	first      map[int]capPkt     // first forwarded copy per source packet
+	byOut      map[uint16]sentRec // first transmission under each outgoing number
+	inOrd      bool               // no late or duplicate arrival so far (holes left by upstream loss are allowed)
+	frameW     map[int]int        // frame -> number of withheld packets
+	frameN     map[int]int        // frame -> number of packets
+	frameF     map[int]int        // frame -> number of packets forwarded
+	frameSeen  map[int]bool       // a packet of the frame has arrived
+	frameShift map[int]bool       // ... and that first packet was withheld
+	log        []string
 	// classes
 	nLate, nDup, nRetx, nRetxShifted, nMarkerSet, nPidShift, nWithheldFrames int
 	knownMarker                                                              bool
@@ -73,8 +76,12 @@ func (h *fwdHarness) want(e int) uint16 {
 
 func (h *fwdHarness) withheldFramesBefore(frame int) int {
 	n := 0
-	for f, k := range h.frameW {
-		if f < frame && k == h.frameN[f] {
+	// A frame counts from the moment the server keeps back the first packet of it that arrives.  In a history without
+	// holes that is exactly "a withheld frame before this one" (a frame whose first packet is withheld is withheld
+	// entirely); with packets lost upstream inside a withheld frame, a later packet of that frame may be forwarded
+	// after all (the server cannot withhold across a hole) and then carries the shifted id too -- one id per frame.
+	for f, shifted := range h.frameShift {
+		if f <= frame && shifted {
 			n++
 		}
 	}
@@ -170,8 +177,14 @@ func (h *fwdHarness) checkForwarded(s *srcPkt, c capPkt, retx bool) {
 					h.nPidShift++
 				}
 				if got != want {
-					t.Fatalf("C02: picture id of frame %d: source %d, %d whole frames withheld before it, forwarded as %d, want %d (mod 2^%d)",
-						s.Frame, s.Pid, k, got, want, s.PidBits)
+					var fr []string
+					for f := s.Frame - 40; f <= s.Frame; f++ {
+						if h.frameN[f] > 0 {
+							fr = append(fr, fmt.Sprintf("f%d:n%d/w%d/f%d", f, h.frameN[f], h.frameW[f], h.frameF[f]))
+						}
+					}
+					t.Fatalf("C02: picture id of frame %d: source %d, %d whole frames withheld before it, forwarded as %d, want %d (mod 2^%d)\nframes (packets/withheld/forwarded): %v\n%s",
+						s.Frame, s.Pid, k, got, want, s.PidBits, fr, strings.Join(h.log[max(0, len(h.log)-20):], "\n"))
 				}
 			}
 			if f, ok := h.first[s.E]; ok {
@@ -193,10 +206,12 @@ func (h *fwdHarness) checkForwarded(s *srcPkt, c capPkt, retx bool) {
 func (h *fwdHarness) deliver(e int) {
 	t := h.t
 	s := h.src(e)
-	inorder := e == h.next
-	if e != h.next {
-		h.inOrd = false
+	ahead := e >= h.next // first copy, in order or after a hole
+	if e < h.next {
+		h.inOrd = false // a late or duplicate arrival: from here on the history is not in order
 	}
+	// (a packet lost upstream leaves a hole but the arrivals stay in order: the picture-id relation still holds,
+	// counting the frames the server withheld, not the ones that never came)
 	h.up.cache.Store(uint16(e), s.TS, s.Key, s.Marker, s.Raw)
 	buf := append([]byte(nil), s.Raw...)
 	_, err := h.down.Write(buf)
@@ -221,9 +236,16 @@ func (h *fwdHarness) deliver(e int) {
 	if e >= h.next {
 		h.next = e + 1
 	}
+	firstOfFrame := ahead && !h.frameSeen[s.Frame]
+	if ahead {
+		h.frameSeen[s.Frame] = true
+	}
 	if len(caps) == 0 {
-		if inorder && h.arr[e] == 1 {
-			// arrived in order and nothing was sent: deliberately withheld
+		if ahead && h.arr[e] == 1 {
+			// not a late copy and nothing was sent: deliberately withheld
+			if firstOfFrame {
+				h.frameShift[s.Frame] = true
+			}
 			i := sort.SearchInts(h.w, e)
 			h.w = append(h.w, 0)
 			copy(h.w[i+1:], h.w[i:])
@@ -238,6 +260,7 @@ func (h *fwdHarness) deliver(e int) {
 	}
 	c := caps[0]
 	h.checkForwarded(s, c, false)
+	h.frameF[s.Frame]++
 	if _, ok := h.first[e]; !ok {
 		h.first[e] = c
 		h.byOut[c.Hdr.SequenceNumber] = sentRec{e, c, h.sidEpoch}
@@ -391,7 +414,7 @@ func genStream(t *rapid.T, cfg streamCfg) []*srcPkt {
 
 func newFwdHarness(t *rapid.T, or fwdOracles, cfg streamCfg, cacheSize int) *fwdHarness {
 	h := &fwdHarness{t: t, or: or, codec: cfg.codec, arr: map[int]int{}, wset: map[int]bool{},
-		first: map[int]capPkt{}, byOut: map[uint16]sentRec{}, inOrd: true, frameW: map[int]int{}, frameN: map[int]int{}}
+		first: map[int]capPkt{}, byOut: map[uint16]sentRec{}, inOrd: true, frameW: map[int]int{}, frameN: map[int]int{}, frameF: map[int]int{}, frameSeen: map[int]bool{}, frameShift: map[int]bool{}}
 	h.up = newFabUpTrack(nil, cfg.codec, 90000, cacheSize, nil)
 	h.down, h.cap = newCapDown(cfg.codec, 90000, h.up, time.Second)
 	h.pkts = genStream(t, cfg)
@@ -576,7 +599,8 @@ func runForward(t *rapid.T, or fwdOracles, inOrderOnly bool, withNack bool) *fwd
 		h.start, h.next = cfg2.start, cfg2.start
 		h.w, h.wset = nil, map[int]bool{}
 		h.arr, h.first, h.byOut = map[int]int{}, map[int]capPkt{}, map[uint16]sentRec{}
-		h.frameW, h.frameN = map[int]int{}, map[int]int{}
+		h.frameW, h.frameN, h.frameF = map[int]int{}, map[int]int{}, map[int]int{}
+		h.frameSeen, h.frameShift = map[int]bool{}, map[int]bool{}
 		for _, p := range h.pkts {
 			h.frameN[p.Frame]++
 		}
